@@ -9,12 +9,15 @@ GenInit == Init /\ hist = <<Pub(obs)>>
 GenNext == Next /\ hist' = Append(hist, Pub(obs'))
 GenSpec == GenInit /\ [][GenNext]_<<vars, hist>>
 Mask(o) == {s \in Slots(kind) : t1[o][s] # Def1(kind)[s]}
-Skel  == <<kind, ops, Mask(1), Mask(2)>>
+\* strings also by length class of the target's values (empty, one byte, short, long)
+LenClass(r) == LET n == RunTotal(r, 1) IN IF n <= 1 THEN n ELSE IF n < 100 THEN 2 ELSE 3
+StrShape == [s \in StrSlots(kind) |-> LenClass(t1[1][s])]
+Skel  == <<kind, ops, Mask(1), Mask(2), StrShape>>
 (* thorough: after two operations only the shape of the prefix counts (how  *)
 (* many properties of each object are set, any string storage in use), so   *)
 (* every operation is replayed as third step from a few representative      *)
 (* prefixes per kind instead of from every pair.                            *)
-Skel3 == <<kind, ops, IF ops < 2 THEN <<Mask(1), Mask(2)>>
+Skel3 == <<kind, ops, IF ops < 2 THEN <<Mask(1), Mask(2), StrShape>>
                       ELSE <<Cardinality(Mask(1)), Cardinality(Mask(2)), Ids(kind, t2[1]) # {}, Ids(kind, t2[2]) # {}>> >>
 Emit  == PrintT(<<"BEHAV", ToJson(hist')>>)
 =============================================================================
